@@ -475,9 +475,11 @@ def p0_form(ctx):
             a, b = st.targets[0].slice.elts
             if isinstance(a, ast.Attribute) and a.attr in want:
                 v = st.value
-                okv = isinstance(v, ast.BinOp) and isinstance(v.op, ast.Pow) and \
-                    norm_text(v.right) == '2' and isinstance(v.left, ast.Name)
-                role = prole.get(v.left.id) if okv else None
+                from .kal import _is_square
+                okv = _is_square(v) and isinstance(
+                    v.args[0] if isinstance(v, ast.Call) else v.left, ast.Name)
+                base_ = (v.args[0] if isinstance(v, ast.Call) else v.left) if okv else None
+                role = prole.get(base_.id) if okv else None
                 ok = norm_text(a) == norm_text(b) and okv and role == want[a.attr]
                 seen[a.attr] = True
                 ctx.ob('P0-FORM', ok, None, 'P_pva[%s, %s] = %s sigma ** 2' % (a.attr, a.attr,
